@@ -1,7 +1,7 @@
 CONSTANTS
-  FixAsyncCb = FALSE
-  FixCbOutsideLock = FALSE
-  FixKickoff = FALSE
+  FixAsyncCb = TRUE
+  FixCbOutsideLock = TRUE
+  FixKickoff = TRUE
   Mode = "fine"
   Tier = "quick"
   Part = 0
@@ -10,6 +10,7 @@ INIT Init
 NEXT Next
 INVARIANT InvBounded
 INVARIANT Collect
+INVARIANT InvNoDeadlock
 VIEW View
 POSTCONDITION Post
 CHECK_DEADLOCK FALSE
